@@ -30,7 +30,7 @@ type WSig struct {
 	Forge    string `json:"forge,omitempty"`     // "" valid | "other-content" well-formed signature over different bytes | "garbage" undecodable value
 	WithCert bool   `json:"with_cert,omitempty"` // attach the signer's certificate (legacy wrapper only)
 	CertOf   string `json:"cert_of,omitempty"`   // attach another certificate instead: "pki:<name>" or "pubkey:<pool name>" (a bare public key PEM)
-	Chain    []string `json:"chain,omitempty"`   // with_cert: further PKI certificates appended to the cert member (the signer brings his own intermediates)
+	Chain    []string `json:"chain,omitempty"`   // further PKI certificates appended to the cert member (the signer brings his own intermediates - or somebody else's certificate)
 }
 
 // WMetaFile is one metadata file.
@@ -104,6 +104,7 @@ type Built struct {
 	Root       string
 	LayoutPath string
 	LinkDir    string
+	stored     []string
 	ProductDir string
 	LogPath    string
 	Certs      map[string]*BuiltCert
@@ -241,13 +242,15 @@ func (b *Built) FileBytes(f WMetaFile) ([]byte, error) {
 			case s.CertOf != "":
 				e["cert"] = s.CertOf
 			case s.WithCert && cert != nil:
-				pemText := cert.PEM
+				e["cert"] = cert.PEM
+			}
+			if text, ok := e["cert"].(string); ok {
 				for _, n := range s.Chain {
 					if cc := b.Certs[n]; cc != nil {
-						pemText += cc.PEM
+						text += cc.PEM
 					}
 				}
-				e["cert"] = pemText
+				e["cert"] = text
 			}
 		}
 		sigs = append(sigs, e)
@@ -345,6 +348,22 @@ func Materialise(w World, root string) (*Built, error) {
 		fb, err := b.FileBytes(f)
 		if err != nil {
 			return nil, fmt.Errorf("link %s: %v", f.Name, err)
+		}
+		if f.Special == "via-symlink" {
+			// the entry in the link directory is a symbolic link to the file kept elsewhere
+			// (mounted volumes, content stores, directories assembled with ln -s)
+			store := filepath.Join(root, "store", fmt.Sprintf("%03d-%s", len(b.stored), filepath.Base(p)))
+			b.stored = append(b.stored, store)
+			if err := os.MkdirAll(filepath.Dir(store), 0o755); err != nil {
+				return nil, err
+			}
+			if err := os.WriteFile(store, fb, 0o644); err != nil {
+				return nil, err
+			}
+			if err := os.Symlink(store, p); err != nil {
+				return nil, err
+			}
+			continue
 		}
 		if err := os.WriteFile(p, fb, 0o644); err != nil {
 			return nil, err
